@@ -38,6 +38,7 @@ type cowCase struct {
 	Elem      string   `json:"elem"`      // S | arr2
 	Init      []int    `json:"init"`
 	Cap       int      `json:"cap,omitempty"`
+	Seed      uint64   `json:"seed"` // order in which the slots are read back after every op (ascending / descending / shuffled)
 	Ops       []cowOp  `json:"ops"`
 	Script    []string `json:"script,omitempty"`
 }
@@ -104,6 +105,7 @@ func (m *cowModel) setLen(n int) (detached int) {
 var structSlots = []string{"A", "B", "C"}
 
 type cowEnv struct {
+	order *core.Rng
 	cs    *cowCase
 	r     *goja.Runtime
 	m     *cowModel
@@ -316,6 +318,43 @@ func (e *cowEnv) apply(op cowOp) (js string, v *violation) {
 			m.set(k, m.value(m.get(k-1)))
 		}
 		m.set(0, op.N)
+	case "iset": // write through the container: a[i].Field = n
+		if !inRange {
+			return "", nil
+		}
+		js = e.valJS(e.slotJS(op.I)) + " = " + strconv.Itoa(op.N)
+		m.get(op.I)
+		m.slots[op.I] = op.N
+	case "regrow": // truncate to I elements, then push T+1 new ones (wrappers of the old elements may still be held)
+		if e.cs.Container != "slice" {
+			return "", nil
+		}
+		k := op.I
+		if k > n {
+			k = n
+		}
+		js = "a.length = " + strconv.Itoa(k) + ";"
+		m.setLen(k)
+		for c := 0; c <= op.T; c++ {
+			js += " a.push(" + e.litJS(op.N+c) + ");"
+			m.set(len(m.slots), op.N+c)
+		}
+	case "splice-tail": // a.splice(I): Get + Delete of every removed element, then length
+		if e.cs.Container != "slice" {
+			return "", nil
+		}
+		k := op.I
+		if k > n {
+			k = n
+		}
+		js = "a.splice(" + strconv.Itoa(k) + ")"
+		for i := k; i < n; i++ {
+			m.get(i)
+		}
+		for i := n - 1; i >= k; i-- {
+			m.set(i, 0)
+		}
+		m.setLen(k)
 	case "go-write":
 		if !inRange {
 			return "", nil
@@ -349,14 +388,31 @@ func (e *cowEnv) verify(after string, op string) *violation {
 	} else {
 		parts = append(parts, "a.length")
 	}
-	for i := 0; i < n; i++ {
-		parts = append(parts, e.valJS(e.slotJS(i)))
+	// the slots are read back in ascending, descending or shuffled order: the element-wrapper cache of the container must not
+	// depend on the order in which elements are looked at
+	perm := make([]int, n)
+	for i := range perm {
+		perm[i] = i
 	}
+	switch e.order.Intn(3) {
+	case 1:
+		for i, j := 0, n-1; i < j; i, j = i+1, j-1 {
+			perm[i], perm[j] = perm[j], perm[i]
+		}
+	case 2:
+		e.order.Shuffle(n, func(i, j int) { perm[i], perm[j] = perm[j], perm[i] })
+	}
+	var reads strings.Builder
+	reads.WriteString("var r = []; ")
+	for _, i := range perm {
+		fmt.Fprintf(&reads, "r[%d] = %s; ", i, e.valJS(e.slotJS(i)))
+	}
+	var refs []string
 	for k := 0; k < 4; k++ {
 		t := fmt.Sprintf("t%d", k)
-		parts = append(parts, "(typeof "+t+" === 'undefined' ? 'u' : "+e.valJS(t)+")")
+		refs = append(refs, "(typeof "+t+" === 'undefined' ? 'u' : "+e.valJS(t)+")")
 	}
-	src := "[" + strings.Join(parts, ", ") + "].join(',')"
+	src := "(function() { " + reads.String() + "return [" + parts[0] + "].concat(r, [" + strings.Join(refs, ", ") + "]).join(',') })()"
 	o := gj.Call(func() (goja.Value, error) { return e.r.RunString(src) })
 	if o.Panic != nil {
 		return &violation{"go-panic-escaped", fmt.Sprintf("reading after %s: Go panic escaped: %v\n%s", after, o.Panic, core.Trunc(o.PanicStack, 1800)), panicSig(o) + "|cow-read"}
@@ -428,7 +484,7 @@ func cowDiffClass(got, want string, n int) string {
 }
 
 func execCow(cs *cowCase, st *core.Stats, quiet bool) (*violation, int, []string) {
-	e := &cowEnv{cs: cs, r: gj.NewRuntime(), st: st, quiet: quiet}
+	e := &cowEnv{cs: cs, r: gj.NewRuntime(), st: st, quiet: quiet, order: core.NewRng(cs.Seed)}
 	goja.VerifSetFuel(e.r, opsFuel)
 	e.build()
 	e.r.Set("a", e.cont.Interface())
@@ -471,8 +527,9 @@ func runCow(c *core.Ctx) core.Result {
 	if cs.Container == "slice" {
 		cs.Cap = r.Intn(3)
 	}
+	cs.Seed = r.U64()
 	nops := r.Range(3, 20)
-	names := []string{"take", "take", "take", "wset", "wset", "wset", "assign-lit", "assign-lit", "assign-ref", "assign-ref", "delete", "length", "sort", "sort", "push", "pop", "reverse", "shift", "unshift", "go-write"}
+	names := []string{"take", "take", "take", "wset", "wset", "wset", "assign-lit", "assign-lit", "assign-ref", "assign-ref", "delete", "length", "sort", "sort", "push", "pop", "reverse", "shift", "unshift", "go-write", "iset", "iset", "regrow", "regrow", "splice-tail"}
 	for i := 0; i < nops; i++ {
 		op := cowOp{Op: core.Pick(r, names), I: r.Intn(n + 2), N: r.Intn(9), T: r.Intn(4)}
 		if op.Op == "length" {
